@@ -699,7 +699,9 @@ func init() {
 			resetGlobals()
 			backend := []string{"couchbase", "file"}[vrt.Choose(2, true, "backend")]
 			// the acknowledgement of (vb0,3): never / before the rebalance, uncommitted / inside the rebalance window
-			when := vrt.Choose(3, true, "acknowledgement-of-the-third-event")
+			// (3 = an older event, (vb0,1), is acknowledged late inside the window instead: the window's offset table is
+			// empty, so the "keep the maximum" guard has nothing to compare with)
+			when := vrt.Choose(4, true, "acknowledgement-of-the-third-event")
 			pending := when == 1
 			o := EnvOpts{Vbs: 2, CheckpointType: "manual", WrapMeta: true, RebalanceDelay: 20 * time.Second}
 			if backend == "file" {
@@ -744,6 +746,10 @@ func init() {
 			if when == 2 {
 				find(0, 3).Ctx.Ack()
 				desc += " after a late acknowledgement of (vb0,3) inside the window"
+			}
+			if when == 3 {
+				find(0, 1).Ctx.Ack()
+				desc += " after a late acknowledgement of the older event (vb0,1) inside the window"
 			}
 			commit := vrt.Choose(2, true, "commit-inside-the-window") == 1
 			if commit {
